@@ -225,21 +225,28 @@ pub fn run_case(ctx: &Ctx, sz: &Sizes, case: u64, proxy: &RouterProxy, global: b
     // crossbeam consumers: drain until disconnected
     let cons = std::mem::take(&mut *consumers.lock().unwrap());
     let mut cb_seqs: Vec<(u32, Vec<(u32, u32, bool)>, bool)> = Vec::new();
+    let mut quiescent_seen = false; // once the process was found idle, nothing more can arrive anywhere
     for (route, crx) in cons {
         let mut got = Vec::new();
         let mut disconnected = false;
         let t0 = now_ns();
         loop {
-            match crx.recv_timeout(Duration::from_millis(200)) {
+            match crx.recv_timeout(Duration::from_millis(if quiescent_seen { 1 } else { 200 })) {
                 Ok((tag, seq, blob)) => got.push((tag, seq, body_diff(mid(case, tag, seq), blob.0.len(), &blob.0).is_none())),
                 Err(crossbeam_channel::RecvTimeoutError::Disconnected) => {
                     disconnected = true;
                     break;
                 },
                 Err(crossbeam_channel::RecvTimeoutError::Timeout) => {
+                    if quiescent_seen {
+                        break;
+                    }
                     if now_ns() - t0 > 20_000_000_000 {
                         match process_quiescent() {
-                            Some(true) => break,
+                            Some(true) => {
+                                quiescent_seen = true;
+                                break;
+                            },
                             _ => {
                                 rep.inconclusive(&format!("c07 case {}: crossbeam route {} undecided", case, route));
                                 return;
